@@ -183,7 +183,7 @@ impl<T: PrimInt + One + Debug + Send + Sync + 'static> World for AllocWorld<T> {
     fn key(&self) -> u128 {
         crate::util::fp128(&(self.intervals(), &self.free))
     }
-    fn sig_label(a: &Act) -> String {
+    fn sig_label(&self, a: &Act) -> String {
         match a {
             Act::Dealloc(v) | Act::Use(v) | Act::IsUsed(v) => {
                 let class = if *v == u8::MAX as u64 || *v == u16::MAX as u64 || *v == u32::MAX as u64 { "type-max" } else if *v == 0 { "zero" } else { "interior" };
